@@ -20,7 +20,7 @@ VARIABLES l,      \* position in Rec
           nviol, ndev   \* how many there were in all
 
 Keep == 60
-Ids == {"FX02a", "FX02b", "FX02c", "FX02d", "FX02e", "FX02f", "FX02g", "FX02h"}
+Ids == {"FX02a", "FX02b", "FX02c", "FX02d", "FX02e", "FX02f", "FX02g", "FX02h", "FX02i"}
 TInit == /\ l = 1 /\ fam = "none" /\ cfg = 0 /\ st = 0 /\ seq = 0 /\ viol = <<>> /\ devs = <<>>
          /\ nviol = 0 /\ ndev = [i \in Ids |-> 0]
 Flag(bad, ln) == /\ viol' = IF bad /\ nviol < Keep THEN Append(viol, ln) ELSE viol
@@ -52,5 +52,5 @@ Done == (l = Len(Rec) + 1) =>
                               deviations |-> devs, nviol |-> nviol + (IF OpenAtEnd(fam, st) THEN 1 ELSE 0),
                               n_FX02a |-> ndev["FX02a"], n_FX02b |-> ndev["FX02b"], n_FX02c |-> ndev["FX02c"],
                               n_FX02d |-> ndev["FX02d"], n_FX02e |-> ndev["FX02e"], n_FX02f |-> ndev["FX02f"],
-                              n_FX02g |-> ndev["FX02g"], n_FX02h |-> ndev["FX02h"]])>>)
+                              n_FX02g |-> ndev["FX02g"], n_FX02h |-> ndev["FX02h"], n_FX02i |-> ndev["FX02i"]])>>)
 =============================================================================
